@@ -21,44 +21,102 @@ Print Assumptions c19_split_guards.
    ([calc] is arbitrary: every set of farmers, every pool configuration, every oracle price),
    what the receivers get in one trigger is at most what is booked as distributed, which is at
    most the allocation of the epoch being triggered, which fits in the undistributed remainder;
-   the custody balance falls by exactly what was received *)
-Theorem c19_epoch_cap : forall now calc bal g g' bal' paid, 0 <= bal ->
+   the custody balance falls by exactly what was received; nothing else of the record changes *)
+Theorem c19_epoch_cap : forall now calc bal g g' bal' paid,
   trigger now calc bal g = Ok (g', bal', paid) ->
-  0 <= zsum paid <= g_distributed g' - g_distributed g /\
+  0 <= pay_total paid <= g_distributed g' - g_distributed g /\
   g_distributed g' - g_distributed g <= (if g_triggered g' =? g_triggered g then 0 else epoch_allocation g) /\
   (g_triggered g' <> g_triggered g ->
-     g_triggered g' = g_triggered g + 1 /\ epoch_allocation g <= g_deposit g - g_distributed g) /\
-  bal' = bal - zsum paid /\ g_deposit g' = g_deposit g /\ g_total g' = g_total g.
-Proof.
-  intros now calc bal g g' bal' paid Hb E.
-  pose proof (trigger_spec _ _ _ _ _ _ _ Hb E) as (D1 & D2 & D3 & D4 & D5 & D6 & D7). cbv zeta in *.
-  destruct D7 as [(A & B & C)|(A & B & C & D & F)].
-  - rewrite A, Z.eqb_refl. repeat split; try lia.
-  - destruct (Z.eqb_spec (g_triggered g') (g_triggered g)); [lia|]. repeat split; try lia.
-Qed.
+     g_triggered g' = g_triggered g + 1 /\ epoch_allocation g <= g_deposit g - g_distributed g /\
+     g_triggered g <> g_total g /\ g_active g = true /\ g_start g <= now) /\
+  bal' = bal - pay_total paid /\ (0 <= bal -> 0 <= bal') /\ g_deposit g' = g_deposit g /\ g_total g' = g_total g.
+Proof. exact epoch_cap. Qed.
 Print Assumptions c19_epoch_cap.
 
+(* the same for a swap-fee gauge: the epoch's allocation is the deposit it has accumulated; it
+   books at most that; outside class C19-F2 what is paid is booked *)
+Theorem c19_epoch_cap_swapfee : forall calc recv bal g g' bal' paid,
+  g_swap g = true -> 0 <= g_deposit g -> trigger_swap calc recv bal g = Ok (g', bal', paid) ->
+  kf_C19_2 calc recv g = false ->
+  0 <= pay_total paid <= g_distributed g' - g_distributed g /\
+  g_distributed g' - g_distributed g <= g_deposit g /\
+  ((g' = g /\ bal' = bal) \/
+   exists r, recv = Ok r /\ g_triggered g' = g_triggered g + 1 /\
+             g_deposit g' = g_deposit g - (g_distributed g' - g_distributed g) + r /\ bal' = bal - pay_total paid + r).
+Proof. exact epoch_cap_swapfee. Qed.
+Print Assumptions c19_epoch_cap_swapfee.
+
 (* the cumulative amount booked as distributed (an upper bound of what was paid) never exceeds the
-   deposit, for every gauge, after every finite history of gauge creations, epoch triggers at any
-   times (so: skipped epochs, repeated triggers, triggers before the start time, failing farming
-   calculations) and other credits; failed steps change nothing *)
-Theorem c19_cumulative : forall ops g, In g (r_gauges (rrun (mkR 0 []) ops)) ->
+   deposit, for every deposit-funded gauge, after EVERY finite history (no class excluded) of gauge
+   and program creations, BeginBlockers at any times with any environment (so: skipped epochs,
+   repeated triggers, triggers before the start time, failing farming calculations, other gauges
+   and programs misbehaving) and other credits; failed steps change nothing *)
+Theorem c19_cumulative : forall ops g, In g (r_gauges (rrun rinit ops)) -> g_swap g = false ->
   0 <= g_distributed g <= g_deposit g.
-Proof.
-  intros ops g Hin. pose proof (rrun_inv ops _ rinv_init) as (HG & _ & _).
-  rewrite Forall_forall in HG. exact (HG g Hin).
-Qed.
+Proof. exact cumulative_all. Qed.
 Print Assumptions c19_cumulative.
 
-(* PARTIAL custody: the rewards module account holds at least the undistributed remainder of ALL
-   gauges (hence of the active ones) after every history.  Missing: swap-fee gauges (their
-   DepositAmount is itself the remainder), the external locker / vault / lend reward programs of
-   rewards/keeper/iter.go (their "available" amounts share the same account), other debits of the
-   module account.  The harness checks the inequality on the implementation after every step. *)
-Theorem c19_custody_partial : forall ops,
-  let s := rrun (mkR 0 []) ops in undistributed (r_gauges s) <= r_bal s /\ 0 <= r_bal s.
-Proof. intros ops. pose proof (rrun_inv ops _ rinv_init) as (_ & HU & HB). split; assumption. Qed.
-Print Assumptions c19_custody_partial.
+(* the whole life of one gauge, creation -> every epoch -> exhaustion: after ANY sequence of trigger
+   attempts (any times, any farming calculations) what the receivers got in total is at most what
+   is booked, which is at most the sum of the allocations of the epochs triggered so far, which is
+   at most the deposit; at most n epochs are triggered; custody fell by exactly what was received *)
+Theorem c19_gauge_life : forall dep n start dur denom sp evs bal0,
+  1 <= n -> n <= dep -> split dep n = Ok sp -> 0 <= bal0 ->
+  let '(g, bal, acc) := fold_left life_step evs (fresh_gauge dep n start dur denom, bal0, 0) in
+  0 <= acc <= g_distributed g /\ g_distributed g <= alloc_sum sp (g_triggered g) /\
+  alloc_sum sp (g_triggered g) <= dep /\ 0 <= g_triggered g <= n /\ bal = bal0 - acc /\ g_deposit g = dep.
+Proof. exact gauge_life. Qed.
+Print Assumptions c19_gauge_life.
+
+(* an exhausted gauge pays nothing more *)
+Theorem c19_exhausted : forall now calc bal g g' bal' paid, g_triggered g = g_total g ->
+  trigger now calc bal g = Ok (g', bal', paid) ->
+  paid = [] /\ bal' = bal /\ g_distributed g' = g_distributed g /\ g_triggered g' = g_triggered g.
+Proof. exact trigger_exhausted. Qed.
+Print Assumptions c19_exhausted.
+
+(* custody: after every history (several gauges incl. swap-fee gauges, several external locker /
+   vault / lend programs, several denoms, any block times, any environment) that meets none of the
+   classes C19-F2, C19-F3, C19-F4, the rewards module account holds, in every denom, at least the remainders of
+   ALL gauges plus the available rewards of ALL programs (hence of the active ones: the predicate
+   the harness evaluates on the implementation holds on the model) *)
+Theorem c19_custody : forall ops d, forallb op_wf ops = true -> run_clean rinit ops = true ->
+  let s := rrun rinit ops in
+  owed d s <= r_bal s d /\ holds_C19_custody d (r_bal s d) (r_gauges s) (r_exts s) = true.
+Proof. exact custody_clean. Qed.
+Print Assumptions c19_custody.
+
+(* class C19-F3 delimited by inputs: a program step cannot overdraw when the owners' balances are
+   non-negative and add up to at most the recorded total (DepositedAmount / TokenMintedAmount) and
+   4 * owners * available <= 10^18 (so: below about 2.5 * 10^17 / owners base units) *)
+Theorem c19_program_safe : forall now e x, ext_safe e x = true -> kf_C19_3 now e x = false.
+Proof. exact ext_safe_no_overdraw. Qed.
+Print Assumptions c19_program_safe.
+
+(* known finding C19-F2: a swap-fee gauge holding 500 whose fee transfer fails pays the 500 at every
+   epoch; after two epochs the account holds 500 against remainders of 1500 *)
+Theorem c19_custody_swapfee_refuted : exists ops d, forallb op_wf ops = true /\ run_clean rinit ops = false /\
+  let s := rrun rinit ops in
+  r_bal s d < owed d s /\ holds_C19_custody d (r_bal s d) (r_gauges s) (r_exts s) = false.
+Proof. exact custody_swapfee_refuted. Qed.
+Print Assumptions c19_custody_swapfee_refuted.
+
+(* known finding C19-F3: six equal lockers, 5*10^18 available on the last day: the program books
+   10 more than it has; a gauge's 1000 in the same denom is left with 990 *)
+Theorem c19_custody_program_refuted : exists ops d, forallb op_wf ops = true /\ run_clean rinit ops = false /\
+  let s := rrun rinit ops in
+  r_bal s d < owed_g d (r_gauges s) /\ holds_C19_custody d (r_bal s d) (r_gauges s) (r_exts s) = false.
+Proof. exact custody_program_refuted. Qed.
+Print Assumptions c19_custody_program_refuted.
+
+(* known finding C19-F4: a lend reward program of 1 000 000 units of a token priced 2.0, one day, one
+   borrower: DistributeExtRewardLend pays 2 000 000 (a value paid out as an amount); a gauge's
+   5 000 000 in the same denom is left with 4 000 000 *)
+Theorem c19_custody_lend_refuted : exists ops d, forallb op_wf ops = true /\ run_clean rinit ops = false /\
+  let s := rrun rinit ops in
+  r_bal s d < owed_g d (r_gauges s) /\ holds_C19_custody d (r_bal s d) (r_gauges s) (r_exts s) = false.
+Proof. exact custody_lend_refuted. Qed.
+Print Assumptions c19_custody_lend_refuted.
 
 (* epoch timing: a tick triggers at most one epoch and only strictly after its end; after a halt of
    more than two durations the missed epochs are skipped without any distribution *)
@@ -89,6 +147,17 @@ Theorem c19_share : forall coins total s, 0 <= coins -> 0 < total -> P18 <= s ->
 Proof. exact share_bound. Qed.
 Print Assumptions c19_share.
 
+(* the same through the farming calculation of a gauge: every reward GetFarmingRewardsData returns
+   (plain pool, or master pool with the min(master, child) rule) belongs to a farmer with an
+   eligible value and is within one part in 10^12 of coins * value / total eligible value *)
+Theorem c19_share_farm : forall e coins ps a r, farm_calc e coins = Ok ps -> In (a, r) ps -> 0 <= coins ->
+  Forall (fun f => 0 <= snd f) (eligible e) ->
+  let total := zsum (map snd (eligible e)) in
+  exists s, In (a, s) (eligible e) /\
+    (P18 <= s -> kf_C19_1 coins total = false -> holds_C19_share coins total s r = true).
+Proof. exact farm_share_bound. Qed.
+Print Assumptions c19_share_farm.
+
 (* known finding C19-F1: allocation 1, two farmers worth 3 000 000 004 and 1 units: the first is
    paid 1 although its pro-rata share is below 1 by 3.3e-10 (relative) *)
 Theorem c19_share_refuted : exists coins total s,
@@ -104,13 +173,60 @@ Print Assumptions c19_share_refuted.
 Example c19_split_example : split 150 11 = Ok [13; 13; 13; 13; 14; 14; 14; 14; 14; 14; 14].
 Proof. vm_compute. reflexivity. Qed.
 
+(* a clean history with two gauges (one swap-fee), a program and two denoms: gauge 2 lives its
+   whole life (3 epochs of 33, 33, 34), the custody hypotheses hold and the balances cover *)
+Definition c19_example_ops : list gop :=
+  [CreateSwap 1 0 86400; Create 1 100 3 0 0 43200 100 true; ExtCreate 0 3 600 2 1 0 600 true;
+   Begin 10 (mkBenv [] [] []);
+   Begin 20 (mkBenv [FarmErr; FarmPlain [(1, 1000000000000000000); (2, 2000000000000000000)]] [Ok 40; Err 1] [mkXenv 300 [(11, 100, 0); (12, 200, 0)]]);
+   Begin 43300 (mkBenv [FarmPlain [(1, 1000000000000000000)]; FarmPlain [(1, 1000000000000000000); (2, 2000000000000000000)]] [Ok 7; Err 1] [mkXenv 300 [(11, 100, 0); (12, 200, 0)]]);
+   Begin 86500 (mkBenv [FarmPlain [(1, 1000000000000000000)]; FarmPlain [(1, 3000000000000000000)]] [Ok 7; Err 1] [mkXenv 300 [(11, 100, 0); (12, 200, 0)]]);
+   Begin 130000 (mkBenv [FarmPlain [(1, 1000000000000000000)]; FarmErr] [Ok 0; Err 1] [mkXenv 300 [(11, 100, 0); (12, 200, 0)]]);
+   Begin 180000 (mkBenv [FarmPlain [(1, 1000000000000000000)]; FarmErr] [Ok 0; Err 1] [mkXenv 300 [(11, 100, 0); (12, 200, 0)]])].
 Example c19_history_example :
-  let s := rrun (mkR 0 []) [Create 100 3 10 5 1000; Trig 0 20 (Ok [10; 20]); Trig 0 30 (Ok [30; 30]);
-                            Trig 0 40 (Err 7); Trig 0 50 (Ok [33]); Trig 0 60 (Ok [34]); Trig 0 70 (Ok [1])] in
-  r_bal s = 3 /\ map g_distributed (r_gauges s) = [97] /\ map g_triggered (r_gauges s) = [3] /\
-  map g_active (r_gauges s) = [false].
+  let s := rrun rinit c19_example_ops in
+  forallb op_wf c19_example_ops = true /\ run_clean rinit c19_example_ops = true /\
+  map g_distributed (r_gauges s) = [47; 100] /\ map g_triggered (r_gauges s) = [3; 3] /\ map g_active (r_gauges s) = [true; false] /\
+  map x_avail (r_exts s) = [1] /\ map x_active (r_exts s) = [true] /\ r_bal s 1 = 0 /\ owed 1 s = 0 /\ r_bal s 3 = 1 /\ owed 3 s = 1.
 Proof. vm_compute. repeat split. Qed.
+
+Example c19_life_example :
+  fold_left life_step [(5, farm_calc (FarmPlain [(1, 1000000000000000000); (2, 2000000000000000000)]));
+                       (9, farm_calc FarmErr); (10, farm_calc (FarmPlain [(1, 1000000000000000000)]));
+                       (20, farm_calc (FarmPlain [(1, 1000000000000000000); (2, 1000000000000000000)])); (30, farm_calc (FarmPlain [(1, 5)]))]
+            (fresh_gauge 100 3 0 43200 1, 1000, 0)
+  = (mkGauge 100 100 3 3 false 0 43200 false 1, 900, 100).
+Proof. vm_compute. reflexivity. Qed.
 
 Example c19_share_example : farm_rewards 10000000000 [1000000000000000000000; 2000000000000000000000; 7000000000000000000000]
   = [1000000000; 2000000000; 7000000000].
 Proof. vm_compute. reflexivity. Qed.
+
+(* master pool: farmer 2 has nothing in the child pools, so the whole allocation goes to farmer 1 *)
+Example c19_master_example :
+  farm_calc (FarmMaster [(1, 3000000000000000000); (2, 5000000000000000000)] [2000000000000000000; 0]) 1000 = Ok [(1, 1000)] /\
+  eligible (FarmMaster [(1, 3000000000000000000); (2, 5000000000000000000)] [2000000000000000000; 0])
+  = [(1, 2000000000000000000); (2, 0)].
+Proof. vm_compute. split; reflexivity. Qed.
+
+Example c19_epoch_timing_example :
+  epoch_tick 100 (mkEpoch false 3 30 40) = (mkEpoch false 4 70 40, TTrigger) /\
+  epoch_tick 100 (mkEpoch false 3 10 30) = (mkEpoch false 3 100 30, TSkipped) /\
+  epoch_tick 100 (mkEpoch true 0 100 30) = (mkEpoch false 0 70 30, TFresh) /\
+  snd (epoch_tick 100 (mkEpoch false 3 70 30)) = TNothing.
+Proof. vm_compute. repeat split. Qed.
+
+(* a swap-fee gauge holding 500: it pays 166 + 333 to two farmers worth 1 and 2, books 499 and takes in 40 *)
+Example c19_swapfee_example :
+  trigger_swap (farm_calc (FarmPlain [(1, 1000000000000000000); (2, 2000000000000000000)])) (Ok 40) 9000
+               (mkGauge 500 10 4 1 true 0 86400 true 1)
+  = Ok (mkGauge 41 509 5 1 true 0 86400 true 1, 8541, [(1, 166); (2, 333)]).
+Proof. vm_compute. reflexivity. Qed.
+
+(* a safe program step: 3 owners of 100, 200, 300 out of 600, 1000 available over 2 remaining days *)
+Example c19_program_example :
+  let x := mkExt 0 3 1000 true 2 0 50 1 in
+  let e := mkXenv 600 [(11, 100, 0); (12, 200, 0); (13, 300, 0)] in
+  ext_safe e x = true /\
+  ext_tick 100 e 5000 x = Ok (mkExt 0 3 501 true 2 1 86500 1, 4501, [(11, 83); (12, 166); (13, 250)]).
+Proof. vm_compute. split; reflexivity. Qed.
